@@ -1,4 +1,4 @@
-SPECIFICATION Spec
+SPECIFICATION SpecFb
 CONSTANTS
   MaxSteps = 6
   MaxCycles = 4
@@ -8,7 +8,7 @@ CONSTANTS
   EnableDebugWrites = FALSE
   SrcVals = {0, 255}
   Dts = {2}
-  CfgSel = "base"
+  CfgSel = "fb1"
 VIEW View
 CHECK_DEADLOCK FALSE
 INVARIANTS
